@@ -186,6 +186,42 @@ def run(ctx):
                     ops, "a complete cell" if have else "no complete cell", "set" if t.unitcell_lengths is not None else "None", "set" if t.unitcell_angles is not None else "None",
                     name_, "a complete cell" if has_ else "no complete cell"), dict(ops=ops, op=name_))
                 break
+    # ---- flat but valid cells (c_z tiny against the edges), long rectangular cells, and a cell with lengths only
+    from mdtraj.utils.unitcell import lengths_and_angles_to_box_vectors as l2v
+    flat = 0
+    for _ in range(ctx.n(400, 4000)):
+        Lf = [rng.uniform(1, 6) for _ in range(3)]
+        al, be = rng.uniform(40, 140), rng.uniform(40, 140)
+        ga_lo = abs(al - be) + 1e-3; ga_hi = min(al + be, 360 - al - be) - 1e-3
+        if ga_hi <= ga_lo:
+            continue
+        ga = rng.choice([ga_lo + rng.uniform(1e-3, 2e-2), ga_hi - rng.uniform(1e-3, 2e-2)])      # close to the edge of the valid region: a flat cell
+        Lq, Aq = np.float32(Lf), np.float32([al, be, ga])
+        v64 = np.array(l2v(*[float(x) for x in Lq], *[float(x) for x in Aq]))
+        vol64 = float(np.linalg.det(v64))
+        if not np.isfinite(vol64) or vol64 < 1e-4 * float(np.prod(Lq)):
+            continue            # degenerate in double precision as well: outside the valid cells
+        tq = md.Trajectory(np.zeros((1, 1, 3), np.float32), None, unitcell_lengths=[Lq], unitcell_angles=[Aq])
+        vq = tq.unitcell_vectors[0].astype(np.float64)
+        flat += 1
+        ctx.case(None, ("flat-cell", flat)); ctx.count("flat valid cells")
+        if np.abs(vq - v64).max() > 2e-6 * float(max(Lq)) or abs(float(tq.unitcell_volumes[0]) - vol64) > 1e-4 * vol64 + 1e-7:
+            viol("vectors|flat-cell", "cell lengths %s angles %s: unitcell_vectors[2] = %s and volume %.6g, double precision gives %s and %.6g" % (
+                Lq.tolist(), Aq.tolist(), vq[2].tolist(), float(tq.unitcell_volumes[0]), v64[2].tolist(), vol64), dict(lengths=Lq.tolist(), angles=Aq.tolist()))
+            break
+    for Lbig in (25.0, 30.0, 250.0):
+        tq = md.Trajectory(np.zeros((1, 1, 3), np.float32), None, unitcell_lengths=[[Lbig] * 3], unitcell_angles=[[90.0] * 3])
+        ctx.case(None, ("long-rectangular", Lbig)); ctx.count("long rectangular cells")
+        if not np.array_equal(tq.unitcell_vectors[0], np.eye(3, dtype=np.float32) * np.float32(Lbig)):
+            viol("vectors|rectangular-not-diagonal", "a rectangular cell of %g nm has unitcell_vectors %s" % (Lbig, tq.unitcell_vectors[0].tolist()), dict(length=Lbig))
+    th = tf.make_traj(3, 6, cell=True)
+    th.unitcell_angles = None
+    ctx.case(None, ("volumes-half-set",)); ctx.count("half-set cells")
+    try:
+        if th.unitcell_volumes is not None:
+            viol("volumes|half-set", "a trajectory with cell lengths but no angles reports unitcell_volumes %s" % th.unitcell_volumes, dict())
+    except Exception as e:  # noqa: BLE001
+        viol("volumes|half-set", "unitcell_volumes of a trajectory with cell lengths but no angles raised %s: %s" % (type(e).__name__, e), dict())
     # completeness through slicing / joining / stacking / atom subsetting / save+load
     for cell in (True, False):
         t = tf.make_traj(5, 12, cell=cell)
